@@ -10,6 +10,7 @@
 #include <array>
 #include <random>
 #include <vector>
+#include <string>
 #include <algorithm>
 #include <frg/bitset.hpp>
 #include <frg/array.hpp>
@@ -69,7 +70,7 @@ struct BitRunner {
 			F &f = second ? *fb : *fa; R &r = second ? rb : ra;
 			F &of = second ? *fa : *fb; R &orr = second ? ra : rb;
 			const char *w = second ? "b" : "a";
-			unsigned op = t.pick(28);
+			unsigned op = t.pick(32);
 			switch(op) {
 			case 0: { unsigned long long v = val(); c.op("%s = bitset(%#llx)", w, v); f.~F(); memset((void *)&f, 0xA5, sizeof(F)); new (&f) F(v); r = from_val(v); break; }
 			case 1: { size_t p = t.pick(N); bool v = t.flip(); c.op("%s.set(%zu,%d)", w, p, (int)v); f.set(p, v); r.set(p, v); break; }
@@ -87,6 +88,11 @@ struct BitRunner {
 			case 13: c.op("%s |= other", w); f |= of; r |= orr; break;
 			case 14: c.op("%s ^= other", w); f ^= of; r ^= orr; break;
 			case 15: c.op("%s = ~%s", w, w); f = ~f; r = ~r; break;
+			// chained calls: every mutator returns the object itself, so a chain acts on it as the single calls would
+			case 28: { size_t p1 = t.pick(N), p2 = t.pick(N); c.op("%s.reset(%zu).flip(%zu).set(%zu)", w, p1, p2, p1); f.reset(p1).flip(p2).set(p1); r.reset(p1).flip(p2).set(p1); c.tag("bitset-chained-mutators"); break; }
+			case 29: { size_t p1 = t.pick(N), p2 = t.pick(N); c.op("%s.flip(%zu).reset(%zu)", w, p1, p2); f.flip(p1).reset(p2); r.flip(p1).reset(p2); c.tag("bitset-chained-mutators"); break; }
+			case 30: { size_t p1 = t.pick(N); c.op("%s.set(%zu).flip() ; (%s.reset(%zu) <<= 1)", w, p1, w, p1); f.set(p1).flip(); r.set(p1).flip(); f.reset(p1) <<= 1; r.reset(p1) <<= 1; c.tag("bitset-chained-mutators"); break; }
+			case 31: { size_t p1 = t.pick(N); c.op("%s.flip(%zu) |= other ; %s.reset().set(%zu)", w, p1, w, p1); f.flip(p1) |= of; r.flip(p1) |= orr; f.reset().set(p1); r.reset().set(p1); c.tag("bitset-chained-mutators"); break; }
 			// the right-hand side is the object itself (through an alias)
 			case 24: { auto &fa = f; auto &ra = r; c.op("%s &= %s (itself)", w, w); f &= fa; r &= ra; c.tag("bitset-self-op"); break; }
 			case 25: { auto &fa = f; auto &ra = r; c.op("%s |= %s (itself)", w, w); f |= fa; r |= ra; c.tag("bitset-self-op"); break; }
@@ -165,6 +171,27 @@ void run_array(Ctx &c) {
 	c.check_san("C18");
 	c.nontrivial = true;
 	c.tag("array");
+}
+
+// arrays of elements with observable move (strings longer than the small-string buffer): concatenation copies from lvalue
+// arguments, the same array may be passed more than once and the inputs stay as they were
+void run_array_strings(Ctx &c) {
+	auto &t = c.t;
+	auto mk = [&](int k) { return std::string(24 + (size_t)t.pick(8), (char)('a' + k)); };
+	frg::array<std::string, 2> a{mk(0), mk(1)}; frg::array<std::string, 1> b{mk(2)};
+	const frg::array<std::string, 2> a0 = a; const frg::array<std::string, 1> b0 = b;
+	c.op("array_concat<string>(a, b, a) with non-const lvalue arrays");
+	c.tag("array-concat-lvalue-strings");
+	auto r = frg::array_concat<std::string>(a, b, a);
+	VCHECK(c, "C18", r.size() == 5 && r[0] == a0[0] && r[1] == a0[1] && r[2] == b0[0] && r[3] == a0[0] && r[4] == a0[1], "array_concat(a, b, a) is {%zu,%zu,%zu,%zu,%zu} characters long, expected the elements of a, b, a", r[0].size(), r[1].size(), r[2].size(), r[3].size(), r[4].size());
+	VCHECK(c, "C18", a[0] == a0[0] && a[1] == a0[1] && b[0] == b0[0], "array_concat changed its lvalue arguments (their elements were moved from)");
+	auto r2 = frg::array_concat<std::string>(a0, b0);      // const lvalues
+	VCHECK(c, "C18", r2.size() == 3 && r2[0] == a0[0] && r2[2] == b0[0], "array_concat of const arrays");
+	frg::array<std::string, 2> tmp = a0;
+	auto r3 = frg::array_concat<std::string>(std::move(tmp), b);      // an rvalue argument may be moved from, the result is the same
+	VCHECK(c, "C18", r3.size() == 3 && r3[0] == a0[0] && r3[1] == a0[1] && r3[2] == b0[0] && b[0] == b0[0], "array_concat with an rvalue argument");
+	c.check_san("C18");
+	c.nontrivial = true;
 }
 
 // arrays of floating-point elements: == is element-wise (+0 == -0, NaN != NaN), as for std::array
@@ -295,7 +322,7 @@ void run_sort(Ctx &c) {
 void verif_case(Ctx &c) {
 	unsigned kind = c.t.pick(8);
 	if(kind <= 4) dispatch_bitset(c, c.t.pick(NBITN), BitNs{});
-	else if(kind == 5) { switch(c.t.pick(5)) { case 4: run_array_fp(c); break; case 0: run_array<1>(c); break; case 1: run_array<2>(c); break; case 2: run_array<3>(c); break; default: run_array<8>(c); break; } }
+	else if(kind == 5) { switch(c.t.pick(6)) { case 5: run_array_strings(c); break; case 4: run_array_fp(c); break; case 0: run_array<1>(c); break; case 1: run_array<2>(c); break; case 2: run_array<3>(c); break; default: run_array<8>(c); break; } }
 	else if(kind == 6) run_prng(c);
 	else run_sort(c);
 }
